@@ -664,8 +664,7 @@ def default_engine_pred(call: ast.Call, m: Module) -> bool:
     f = call.func
     if not isinstance(f, ast.Attribute):
         return False
-    if f.attr not in ("execute", "fetchall", "fetchone", "fetch_arrow_table", "close", "cursor", "sql",
-                      "fetchmany", "df", "executemany"):
+    if f.attr.startswith("__"):
         return False
     recv = f.value
     # chained: duck_conn.execute(...).fetchone()
